@@ -218,7 +218,18 @@ func ParseFunction(parameterList, body string) (*ast.FunctionLiteral, error) {
 		return nil, err
 	}
 
-	return program.Body[0].(*ast.ExpressionStatement).Expression.(*ast.FunctionLiteral), nil
+	// The parameter list or the body may have closed the wrapping function early:
+	// anything but a single function literal is not a function.
+	if len(program.Body) == 1 {
+		if statement, ok := program.Body[0].(*ast.ExpressionStatement); ok {
+			if function, ok := statement.Expression.(*ast.FunctionLiteral); ok {
+				return function, nil
+			}
+		}
+	}
+
+	p.error(file.Idx(p.base), "Invalid function parameter list or body")
+	return nil, p.errors.Err()
 }
 
 // Scan reads a single token from the source at the current offset, increments the offset and
